@@ -804,3 +804,70 @@ func Ret(ret *ssa.Return) []ssa.Value {
 	}
 	return out
 }
+
+// SameValue: a and b denote the same value: identical SSA values, or structurally equal pure
+// expressions (go/ssa performs no common-subexpression elimination): field selections, conversions
+// and loads of the same field address of the same base.
+func SameValue(a, b ssa.Value) bool {
+	return sameValue(a, b, 0)
+}
+
+func sameValue(a, b ssa.Value, d int) bool {
+	if a == b {
+		return true
+	}
+	if d > 6 || a == nil || b == nil {
+		return false
+	}
+	a, b = Strip(ResolveLoad(a)), Strip(ResolveLoad(b))
+	if a == b {
+		return true
+	}
+	switch x := a.(type) {
+	case *ssa.Field:
+		if y, ok := b.(*ssa.Field); ok {
+			return x.Field == y.Field && sameValue(x.X, y.X, d+1)
+		}
+	case *ssa.FieldAddr:
+		if y, ok := b.(*ssa.FieldAddr); ok {
+			return x.Field == y.Field && sameValue(x.X, y.X, d+1)
+		}
+	case *ssa.UnOp:
+		if y, ok := b.(*ssa.UnOp); ok && x.Op == y.Op {
+			if x.Op == token.MUL {
+				// loads: same address and no store to that field in the function
+				if !sameValue(x.X, y.X, d+1) {
+					return false
+				}
+				if fa, ok := x.X.(*ssa.FieldAddr); ok {
+					return !fieldEverStored(fa)
+				}
+				return false
+			}
+			return sameValue(x.X, y.X, d+1)
+		}
+	case *ssa.Convert:
+		if y, ok := b.(*ssa.Convert); ok {
+			return types.Identical(x.Type(), y.Type()) && sameValue(x.X, y.X, d+1)
+		}
+	case *ssa.Const:
+		if y, ok := b.(*ssa.Const); ok {
+			return x.Value != nil && y.Value != nil && x.Value.ExactString() == y.Value.ExactString() && types.Identical(x.Type(), y.Type())
+		}
+	}
+	return false
+}
+
+func fieldEverStored(fa *ssa.FieldAddr) bool {
+	f := fa.Parent()
+	for _, b := range f.Blocks {
+		for _, ins := range b.Instrs {
+			if st, ok := ins.(*ssa.Store); ok {
+				if g, ok := st.Addr.(*ssa.FieldAddr); ok && g.Field == fa.Field && types.Identical(g.X.Type(), fa.X.Type()) {
+					return true
+				}
+			}
+		}
+	}
+	return false
+}
